@@ -185,6 +185,7 @@ type stats struct {
 	emptied                                        int64
 	hx                                             hstats // height-sequence families (ext_heights_test.go)
 	sx                                             sstats // synchronised starts (ext_sync_test.go)
+	ax                                             astats // aliasing oracle, restore paths (ext_alias_test.go)
 	outcomes                                       map[string]int64
 }
 
@@ -224,6 +225,7 @@ func (s *stats) merge(o *stats) {
 	s.emptied += o.emptied
 	s.hx.merge(&o.hx)
 	s.sx.merge(&o.sx)
+	s.ax.merge(&o.ax)
 	for k, v := range o.outcomes {
 		if s.outcomes == nil {
 			s.outcomes = map[string]int64{}
@@ -268,7 +270,7 @@ var nopLog = zap.NewNop()
 type inst struct {
 	cfg  runCfg
 	mode mpt.TrieMode
-	ps   *storage.MemoryStore    // the backing ("persistent") store, GC works on it
+	ps   storage.Store           // the backing ("persistent") store, GC works on it (a MemoryStore unless a synced start asks for another stack)
 	dao  *storage.MemCachedStore // the node's cache layer over it
 	mod  *stateroot.Module
 	tr   *mpt.Trie // applier putdel: the current trie
@@ -278,7 +280,8 @@ type inst struct {
 	// the values of lastDeact are real heights.
 	height, persisted uint32
 	hs                []uint32
-	synced            bool // block 0 is a state restored by state synchronisation at height h0
+	synced            bool  // block 0 is a state restored by state synchronisation at height h0
+	syncSizes         []int // module path: number of hashes asked for before each delivery
 	h0                uint32
 	gmax              uint32
 	gcRan             bool
@@ -303,8 +306,12 @@ func (in *inst) H(i uint32) uint32 {
 }
 
 func newInst(cfg runCfg, st *stats, hs []uint32) *inst {
+	return newInstOn(cfg, st, hs, storage.NewMemoryStore())
+}
+
+func newInstOn(cfg runCfg, st *stats, hs []uint32, ps storage.Store) *inst {
 	in := &inst{cfg: cfg, mode: cfg.trieMode(), st: st, lastDeact: map[h256]uint32{}, hs: hs}
-	in.ps = storage.NewMemoryStore()
+	in.ps = ps
 	in.dao = storage.NewMemCachedStore(in.ps)
 	in.newModule()
 	if err := in.mod.Init(0); err != nil {
@@ -373,9 +380,21 @@ func (in *inst) collapseDepth() int {
 func (in *inst) commit(b batch) (kind, detail string) {
 	h := in.height + 1
 	H := in.H(h)
+	var before *storeSnap
+	if aliasOracle {
+		before = in.snap()
+	}
 	cache, tr, root, err := in.compute(b, H)
 	if err != nil {
 		return "apply-error", err.Error()
+	}
+	if before != nil {
+		// The block's changes sit in the private cache: no record of the node's
+		// store may have changed yet (ext_alias_test.go).
+		if d := in.snap().diff(before, nil, false); d != "" {
+			return "store-record-changed-by-computing-a-block", fmt.Sprintf("computing the block at height %d: %s", H, d)
+		}
+		in.st.ax.computeChecked++
 	}
 	// storeBlock: "Every persist cycle we also compact our in-memory MPT."
 	if in.persisted == h-1 {
@@ -624,6 +643,18 @@ func (in *inst) check() (kind, detail string) {
 	}
 
 	// (4)+(5) every root: raw walk if retained, API reads always.
+	var beforeReads *storeSnap
+	if aliasOracle {
+		beforeReads = in.snap()
+		defer func() {
+			if kind == "" {
+				if d := in.snap().diff(beforeReads, nil, false); d != "" {
+					kind, detail = "store-record-changed-by-reads", fmt.Sprintf("reads at height %d: %s", Hh, d)
+				}
+				st.ax.readsChecked++
+			}
+		}()
+	}
 	for r := in.first(); r <= h; r++ {
 		c := in.canons[r]
 		Hr := in.H(r)
@@ -802,7 +833,8 @@ func runCase(c *caseRec, st *stats, checkFrom int, checkAll bool, states *u64set
 	if c.Heights != nil && len(c.Heights) < len(c.Hist) {
 		return "harness-bad-case", "fewer heights than blocks", 0
 	}
-	in := newInst(c.Cfg, st, c.Heights)
+	in, closeStore := newInstFor(c, st)
+	defer closeStore()
 	if c.Sync != nil {
 		if kind, detail = in.syncStart(c.Sync); kind != "" {
 			return
@@ -1033,7 +1065,18 @@ func TestCheck(t *testing.T) {
 		orderCases, same = restoreOrders(r.Thorough(), &st, report)
 		total.merge(&st)
 		cases += int64(orderCases)
-		hphases = append(hphases, syncPhases(r.Thorough(), same)...)
+		sp := syncPhases(r.Thorough(), same)
+		// Round 3: restore through statesync.Module (ext_alias_test.go); stores
+		// that differ from the plain restore get the histories as well.
+		rsCases, differing := restoreShared(r, &total, report)
+		cases += rsCases
+		sort.Slice(differing, func(i, j int) bool { return differing[i].String() < differing[j].String() })
+		for _, d := range differing {
+			if len(sp[0].Syncs) < 64 {
+				sp[0].Syncs = append(sp[0].Syncs, d)
+			}
+		}
+		hphases = append(hphases, sp...)
 	}
 	if os.Getenv("C11_HEIGHTS") == "only" { // development aid
 		jobs = nil
@@ -1051,6 +1094,9 @@ func TestCheck(t *testing.T) {
 			}
 			for _, sy := range syncs {
 				for _, c := range hp.Cfgs {
+					if sy != nil && sy.Via == "module" && c.Mode == "all" {
+						continue
+					}
 					for k0 := 0; k0 < hp.K; k0++ {
 						for k1 := 0; k1 < hp.K; k1++ {
 							jobs = append(jobs, job{cfg: c, k0: k0, k1: k1, K: hp.K, B: hp.B, pairs: hp.Plan != planSingle, hs: &hp.Seqs[si], pm: hp.Plan, fam: hp.Fam, sync: sy})
@@ -1223,6 +1269,7 @@ func TestCheck(t *testing.T) {
 	}
 	heightCoverage(cov, hphases, &total.hx)
 	syncCoverage(cov, hphases, &total.sx, orderCases)
+	aliasCoverage(cov, &total.ax)
 	r.Finish(cov, []string{
 		"retained roots: ModeLatest the latest only; ModeGC every height >= the highest G collected so far; ModeAll all",
 		"GC(G) is only issued with G <= persisted height (Blockchain.tryRunGC uses persisted height - MaxTraceableBlocks) and acts on the backing store while later blocks may still sit in the cache layer",
